@@ -302,6 +302,8 @@ class Interp(object):
     def _dkey(k):
         if isinstance(k, (str, int, float, tuple)):
             return k
+        if isinstance(k, Opaque):
+            return k            # an uninterpreted string: keyed by identity
         raise Unsupported("dictionary key %r" % (k,))
 
     def stmt_Return(self, node, st, fr):
@@ -362,12 +364,39 @@ class Interp(object):
             return then_fn(st)
         if c is False:
             return else_fn(st)
+        # a branch whose outcome the path condition already decides is not forked (linear-arithmetic check of the
+        # scalar path condition only: cheap, and it keeps infeasible paths from reaching undefined names)
+        decided = self._decided_by_pc(c, st)
+        if decided is True:
+            return then_fn(st)
+        if decided is False:
+            return else_fn(st)
         s1, s2 = st, st.fork()
         s1.assume_pc(c)
         s1.path += 'T'
         s2.assume_pc(bnot(c))
         s2.path += 'F'
         return then_fn(s1) + else_fn(s2)
+
+    def _decided_by_pc(self, c, st):
+        if not isinstance(c, Sc) or not st.pc:
+            return None
+        import z3
+        pcs = [p.t for p in st.pc if isinstance(p, Sc)]
+        if not pcs:
+            return None
+        try:
+            for want, val in ((z3.Not(c.t), True), (c.t, False)):
+                sol = z3.Solver()
+                sol.set('timeout', 150)
+                for p in pcs:
+                    sol.add(p)
+                sol.add(want)
+                if sol.check() == z3.unsat:
+                    return val
+        except Exception:
+            return None
+        return None
 
     def stmt_If(self, node, st, fr):
         c = self.truth(self.eval(node.test, st, fr), st)
